@@ -638,6 +638,12 @@ pub fn crash_gen(p: &mut Profile) {
             g.max_ops = 24;
             g.sync_points = 1;
             g.allow_backing = false;
+            // C01..C03 across the growth, in the run itself
+            let o = &mut p.oracles;
+            o.readback = true;
+            o.flush_check = true;
+            o.final_reopen = true;
+            o.sweep_every = 12;
         }
     }
 }
